@@ -355,6 +355,27 @@ pub fn dir_name(d: u8) -> &'static str {
     if d == 0 { "req" } else { "resp" }
 }
 
+// run-level progress: when did ANY observer of a run last move a payload byte (milliseconds since the first use).
+// A peer loop only sees its own connection; a body that sozu and the kernels have buffered completely keeps moving on
+// the other connection of the exchange long after this one went quiet (5 MB towards a 512-byte reader with a 4 KiB
+// receive buffer), with the worker asleep most of the time: that is slowness, not a stall.
+static RUN_PROGRESS: [AtomicU64; 4096] = [const { AtomicU64::new(0) }; 4096];
+static T_ZERO: std::sync::OnceLock<Instant> = std::sync::OnceLock::new();
+fn now_ms() -> u64 {
+    T_ZERO.get_or_init(Instant::now).elapsed().as_millis() as u64 + 1
+}
+pub fn note_run_progress(run: u64) {
+    RUN_PROGRESS[(run % 4096) as usize].store(now_ms(), Ordering::Relaxed);
+}
+/// did an observer of one of these runs (or of a run sharing its slot: only ever delays a verdict) move a byte within `d`?
+pub fn runs_moved_within(runs: &[u64], d: Duration) -> bool {
+    let now = now_ms();
+    runs.iter().any(|r| {
+        let t = RUN_PROGRESS[(*r % 4096) as usize].load(Ordering::Relaxed);
+        t != 0 && now.saturating_sub(t) < d.as_millis() as u64
+    })
+}
+
 /// Sender-side recorder of one message: coalesces Sent events.
 pub struct SendRec {
     pub key: MsgKey,
@@ -372,6 +393,7 @@ impl SendRec {
         if len == 0 {
             return;
         }
+        note_run_progress(self.key.run);
         match self.pend.as_mut() {
             Some((a, l)) if *a + *l == off && *l < 128 * 1024 => *l += len,
             _ => {
@@ -417,6 +439,7 @@ impl RecvRec {
         if data.is_empty() || self.ended {
             return;
         }
+        note_run_progress(self.key.run);
         let off = self.rcvd;
         let bad = if self.corrupt { -1 } else { self.code.first_bad(off, data) };
         if bad >= 0 {
